@@ -131,6 +131,17 @@ CLAIMED = {
              'same offset (probability 2^-40 per pair); CPython pickle trusted.',
         technique='Lean 4 proof (invariants over operation histories) + model/implementation correspondence check across interpreter sessions',
         design_ref='DESIGN.md 4/C20'),
+    'C09': dict(
+        text='Theorems about the glue around the solver: the exit-flag table (regenerated on every run by EXECUTING the real '
+             'ECOS.parse_result for flags -20..20 and checked by decide against the model), the MIN/MAX sense flip incl. the signs of '
+             'infeasible/unbounded, failure => NaN, and the value store as a state machine over ALL finite solve histories (every '
+             'component of the solved Problem holds this solve\'s entry, 0 when not participating, NaN after any non-optimal outcome: '
+             'no stale value survives). Tied to the code by random solve histories over Variable-sharing problems with forced failures; '
+             'closed-form optima, constraint violations and objective values are checked on the implementation.',
+        note='"equals the true optimum" is relative to the ECOS contract (exit flag 0 => optimal), checked per instance against '
+             'closed forms; known finding F22: a primal-and-dual infeasible problem is reported as unbounded (ECOS flag 2).',
+        technique='Lean 4 proof (decide over a table regenerated by executing the source; induction over solve histories) + correspondence check',
+        design_ref='DESIGN.md 4/C09'),
 }
 
 NOT_YET = 'check not built yet in this session (planned, see DESIGN.md section 6); not claimed until its theorems and correspondence exist'
